@@ -256,3 +256,14 @@ func (l *Locks) Callers(f *ssa.Function) []ssa.Instruction { return l.callers[f]
 
 // Escapes reports whether f is referenced other than by a direct call.
 func (l *Locks) Escapes(f *ssa.Function) bool { return l.escapes[f] }
+
+// LockOpOf classifies a plain (not deferred) call instruction as a mutex
+// operation: lock is "Type.field", op one of "+W", "+R", "-W", "-R"; "" when
+// the instruction is not one.
+func LockOpOf(in ssa.Instruction) (lock, op string) {
+	call, ok := in.(*ssa.Call)
+	if !ok {
+		return "", ""
+	}
+	return lockOp(&call.Call)
+}
